@@ -114,11 +114,14 @@ Create HintDb agentcore_val.
   handle_success_controlled accept_nomination handle_request_controlled handle_role_conflict
   handle_inbound_request handle_inbound tick accept_data inbound_data do_write conn_write
   conn_write_to_pair conn_read do_start do_set_remote_creds do_restart do_renominate do_close step_m
-  : agentcore agentcore_sel agentcore_val.
-(* agentcore_sel keeps set_selected / reselect folded (they are atomic for selection invariants);
+  : agentcore agentcore_sel agentcore_val agentcore_role.
+(* agentcore_role keeps the role dispatchers folded; agentcore_sel keeps set_selected / reselect folded (they are atomic for selection invariants);
    agentcore_val additionally keeps validate_selected folded *)
 #[export] Hint Unfold set_selected reselect : agentcore.
-#[export] Hint Unfold validate_selected : agentcore agentcore_sel.
+#[export] Hint Unfold dispatch_request dispatch_success : agentcore agentcore_sel agentcore_val.
+Create HintDb agentcore_role.
+#[export] Hint Unfold validate_selected : agentcore agentcore_sel agentcore_role.
+#[export] Hint Unfold set_selected reselect : agentcore_role.
 
 Ltac sat_split :=
   repeat match goal with
@@ -134,6 +137,7 @@ Ltac sat_split :=
 Ltac sat_decompose := autounfold with agentcore; sat_split.
 Ltac sat_decompose_sel := autounfold with agentcore_sel; sat_split.
 Ltac sat_decompose_val := autounfold with agentcore_val; sat_split.
+Ltac sat_decompose_role := autounfold with agentcore_role; sat_split.
 
 (* closing the base obligations: after decomposition every goal is about one primitive *)
 Ltac destruct_matches :=
@@ -160,3 +164,63 @@ Proof.
   intros H1 H2 s. unfold update_conn. cbn.
   destruct (s_conn s =? st); [reflexivity|]. destruct (st =? ConnectionStateFailed); cbn; auto.
 Qed.
+
+(* ---- reasoning under a state predicate that holds throughout a computation ------------------------
+   [satG G P f]: from every state satisfying G, f satisfies P and re-establishes G.  The value handed
+   to a with_state continuation is then the observation of a state SATISFYING G, which is what makes
+   guards usable ("the role is controlling here"). *)
+Definition satG (G : state -> Prop) (P : mprop) (f : M) : Prop :=
+  forall s, G s -> P s (snd (f s)) (fst (f s)) /\ G (fst (f s)).
+
+Lemma satG_nop (G : state -> Prop) (P : mprop) : satG G P nop.
+Proof. intros s H. split; [apply mp_refl|exact H]. Qed.
+
+Lemma satG_seq (G : state -> Prop) (P : mprop) f g : satG G P f -> satG G P g -> satG G P (f ;; g).
+Proof.
+  intros Hf Hg s H. unfold seq. destruct (Hf s H) as [H1 H2]. destruct (f s) as [s1 o1].
+  cbn [fst snd] in *. destruct (Hg s1 H2) as [H3 H4]. destruct (g s1) as [s2 o2]. cbn [fst snd] in *.
+  split; [eapply mp_trans; eassumption|exact H4].
+Qed.
+
+Lemma satG_with_state (G : state -> Prop) (P : mprop) A (q : state -> A) (k : A -> M) :
+  (forall s0, G s0 -> satG G P (k (q s0))) -> satG G P (with_state q k).
+Proof. intros H s Hs. apply (H s Hs s Hs). Qed.
+
+Lemma satG_for_each (G : state -> Prop) (P : mprop) A (l : list A) (k : A -> M) : (forall a, satG G P (k a)) -> satG G P (for_each l k).
+Proof.
+  intros H. induction l as [|x t IH]; cbn [for_each]; [apply satG_nop|apply satG_seq; [apply H|exact IH]].
+Qed.
+
+Lemma satG_modify (G : state -> Prop) (P : mprop) f : (forall s, G s -> P s [] (f s) /\ G (f s)) -> satG G P (modify f).
+Proof. intros H s Hs. apply H. exact Hs. Qed.
+
+Lemma satG_emit (G : state -> Prop) (P : mprop) o : (forall s, G s -> P s [o] s) -> satG G P (emit o).
+Proof. intros H s Hs. split; [apply H; exact Hs|exact Hs]. Qed.
+
+Lemma satG_upd_pair (G : state -> Prop) (P : mprop) id f :
+  (forall s, G s -> let s' := set_s_checklist (map (fun p => if p_id p =? id then f p else p) (s_checklist s)) s in
+                    P s [] s' /\ G s') -> satG G P (upd_pair id f).
+Proof. intros H. unfold upd_pair. apply satG_modify. exact H. Qed.
+
+Lemma satG_of_sat (G : state -> Prop) (P : mprop) f : sat P f -> sat (preserves G) f -> satG G P f.
+Proof. intros H1 H2 s Hs. split; [apply H1|apply (H2 s Hs)]. Qed.
+
+Ltac satG_split :=
+  repeat match goal with
+  | |- satG _ _ nop => apply satG_nop
+  | |- satG _ _ (seq _ _) => apply satG_seq
+  | |- satG _ _ (with_state _ _) => apply satG_with_state; intros ?s0 ?Hg0
+  | |- satG _ _ (for_each _ _) => apply satG_for_each; intros
+  | |- satG _ _ (if ?b then _ else _) => destruct b
+  | |- satG _ _ (match ?x with _ => _ end) => destruct x
+  | |- satG _ _ (let '(_, _) := ?x in _) => destruct x
+  end.
+
+Ltac satG_decompose := autounfold with agentcore; satG_split.
+
+Ltac satG_base tac :=
+  match goal with
+  | |- satG _ _ (modify _) => apply satG_modify; intros ?s ?Hg; tac
+  | |- satG _ _ (emit _) => apply satG_emit; intros ?s ?Hg; tac
+  | |- satG _ _ (upd_pair _ _) => apply satG_upd_pair; intros ?s ?Hg; tac
+  end.
